@@ -8,6 +8,7 @@ pub mod c01;
 pub mod c02;
 pub mod c03;
 pub mod c04;
+pub mod c05;
 pub mod c06;
 pub mod c07;
 pub mod c08;
@@ -89,15 +90,15 @@ pub fn scaled(ctx: &Ctx, quick_total: u64, thorough_total: u64) -> u32 {
 }
 
 pub fn c05_def() -> PropDef {
-	shuttle_def(
+	c05::def(shuttle_def(
 		"C05",
-		"generated workloads (1-2 committing threads with disjoint key sets, each a script of transactions writing 2-4 keys with version-tagged values whose length class changes size tiers incl. multipart; 1-3 reader threads with scripts of point reads; hash or btree column; optionally identity-hashed keys crowded into one index page so that the index grows while readers run) x pipeline driven by the four REAL worker loops (verif_run_worker, throttles active) or by one stage thread with a generated step order x seeded shuttle schedules (random + PCT depth 3) at lock/condvar granularity. Oracle per read of key k of writer w: lo = completed[w] sampled before, hi = started[w] sampled after (harness atomics); the returned version t must satisfy last_write(k,<=lo) <= t <= last_write(k,<=hi), the bytes must be exactly what transaction t wrote (no torn value), and per reader every later read of a key written by a transaction <= the highest one observed must return that write or a later one (atomic, monotonic). After the threads finish: clean close, reopen, every key holds its last write. Non-trivial = an execution in which >=1 read was served while the pipeline was non-idle (commits queued, bytes logged-not-applied or log files awaiting enactment); evaluations = schedule executions; distinct = each execution has its own (workload, schedule) pair - counted as executions in which the non-trivial condition was observed",
+		"generated workloads (1-2 committing threads with disjoint key sets, each a script of transactions writing 2-4 keys with version-tagged values whose length class changes size tiers incl. multipart; 1-3 reader threads with scripts of point reads; hash or btree column; optionally identity-hashed keys crowded into one index page so that the index grows while readers run) x pipeline driven by the four REAL worker loops (verif_run_worker, throttles active) or by one stage thread with a generated step order x seeded shuttle schedules (random + PCT depth 3) at lock/condvar granularity. Oracle per read of key k of writer w: lo = completed[w] sampled before, hi = started[w] sampled after (harness atomics); the returned version t must satisfy last_write(k,<=lo) <= t <= last_write(k,<=hi), the bytes must be exactly what transaction t wrote (no torn value), and per reader every later read of a key written by a transaction <= the highest one observed must return that write or a later one (atomic, monotonic). After the threads finish: clean close, reopen, every key holds its last write. Non-trivial = an execution in which >=1 read was served while the pipeline was non-idle (commits queued, bytes logged-not-applied or log files awaiting enactment); evaluations = schedule executions; distinct = each execution has its own (workload, schedule) pair - counted as executions in which the non-trivial condition was observed. Sub-run os-threads (harness binary, half of the shards): the same workload shape (8-60 transactions per writer, readers reading generator-chosen keys until the writers are done, optional compression, btree, index growth by filler keys) and the same oracle with std threads, the library's own background workers and always_flush, so that memory-mapped table bytes are read while another thread rewrites them; there the schedule is the operating system's and non-trivial = >=1 read served while the pipeline was busy",
 		&[
 			"schedules are controlled at the granularity of the crate's lock / condvar operations (feature loom mapped onto shuttle); data races on memory-mapped bytes without a lock in between are outside what this engine can schedule",
 			"the library is built with feature loom (Vec buffers instead of arrays, value_ref copies)",
 			"ordering knowledge comes only from harness atomics; writers have disjoint key sets so per-key order is known",
 		],
-	)
+	))
 }
 
 pub fn c15_def() -> PropDef {
